@@ -23,7 +23,7 @@ import sys
 
 sys.path.insert(0, os.path.dirname(os.path.abspath(__file__)))
 from rtok import lex, untok, match_close, Tok
-from extract import find_item, find_closure, LostAnchor
+from extract import find_item, find_closure, find_call_arg, LostAnchor
 import rules as R
 
 VERIF = os.path.dirname(os.path.dirname(os.path.abspath(__file__)))
@@ -245,7 +245,20 @@ def build(template_path, repo, variant="strict"):
         if not os.path.exists(path):
             raise LostAnchor("file %s not found" % relfile)
         mclo = re.match(r"closure\s+(.*)#(\d+)$", selector)
-        if mclo:
+        marg = re.match(r"callarg\s+`(.*)`\s+in\s+(.*)#(\d+)$", selector)
+        if marg:
+            # the argument expression of a call inside a function that cannot be extracted as a whole, presented as a function
+            item = find_call_arg(path, marg.group(2).strip(), marg.group(1), int(marg.group(3)))
+            if not opts.get("sig"):
+                raise ValueError("callarg extraction needs a `sig` option")
+            body = R.syn("{ ") + list(item.toks) + R.syn(" }")
+            item.toks = R.syn(opts["sig"] + " ") + body
+            item.kind = "fn"
+            item.name = re.search(r"\bfn\s+(\w+)", opts["sig"]).group(1)
+            opts["rules"] = [r for r in opts["rules"] if r != "R2"]
+            opts["closure_sig"] = True
+            res.rewrites.append(("R18", "%s:%d %s" % (relfile, item.line0, selector), "argument expression", opts["sig"]))
+        elif mclo:
             item = find_closure(path, mclo.group(1).strip(), int(mclo.group(2)))
             if not opts.get("sig"):
                 raise ValueError("closure extraction needs a `sig` option")
